@@ -77,6 +77,16 @@ class Native:
         except Exception:
             return [self.eval_one(s) for s in sources]
 
+    def eval_many_release_reversed(self, sources, timeout=60):
+        """the same programs in the RELEASE build, in one process, in REVERSED order (a different build profile and a
+        different history of earlier evaluations in the process); None when there is no release binary or the batch dies"""
+        if not sources or self.bin_release is None:
+            return None
+        try:
+            return self._batch(self.bin_release, "eval", list(reversed(sources)), timeout=timeout)[::-1]
+        except Exception:
+            return None
+
     def close(self):
         if self.overlay is not None:
             self.overlay.cleanup()
@@ -438,6 +448,20 @@ class SkeletonChecker:
                     findings.append(Finding("ledger", "heap ledger of the real run on a path witness: %s" % (
                         "%d block(s) never released" % n if n > 0 else "%d release(s) too many (something was released twice)" % -n), wsrc, skel, role="ledger"))
                 self.stats["ledger_audits"] = self.stats.get("ledger_audits", 0) + (1 if j.get("leak") is not None else 0)
+            # the same witnesses in the release build, in reversed order in one process: the outcome of an evaluation must not
+            # depend on the build profile or on what was evaluated before in the same process
+            outs2 = self.native.eval_many_release_reversed([w[0] for w in witnesses])
+            if outs2 is not None:
+                for (wsrc, exp), j, j2 in zip(witnesses, outs, outs2):
+                    self.stats["profile_history_pairs"] = self.stats.get("profile_history_pairs", 0) + 1
+                    if native_outcome(j)[0] in ("panic", "abort", "hang") or native_outcome(j2)[0] in ("panic", "abort", "hang"):
+                        continue  # reported above / by the replay
+                    if j.get("result") != j2.get("result") or j.get("output", "") != j2.get("output", ""):
+                        a, b = native_outcome(j), native_outcome(j2)
+                        same_err = a[0] == "err" and b[0] == "err" and a[1] == b[1] and j.get("output", "") == j2.get("output", "")
+                        if not same_err:
+                            findings.append(Finding("witness", "the dev build (program evaluated in source order) and the release build (reversed order, same process) disagree: "
+                                                    "%r / %r vs %r / %r" % (a[:2], j.get("output", "")[:60], b[:2], j2.get("output", "")[:60]), wsrc, skel, role="witness"))
         if getattr(eng, "truncated", False):
             self.stats["truncated"] += 1
         self.stats["queries"] += eng.queries
